@@ -20,7 +20,7 @@
 
 #define MAXTOK 4096
 #define MAXDIM 8
-#define MAXREQ 256
+#define MAXREQ 8192
 #define GUARD 16
 #define SENT 0xA5
 
